@@ -65,6 +65,10 @@ NeedKey(facts, nw, s) == LET kk == FirstKey(s) IN
                          ELSE IF ~Has(facts, "hash160", kk) THEN <<Req("hash160", kk)>>
                          ELSE NeedAddr(facts, nw, PKH(Get(facts, "hash160", kk)))
 
+\* the network the library uses where the caller names none (and, as a deviation, where it forgets the one named)
+DefaultNet == "bitcoin"
+BlockRoutes == {"blk", "blk_bytes", "blk_bio"}
+
 \* ------------------------------------------------------------------- build
 BOut(need, addr, script, tname, d) ==
     [v |-> "ok", dev |-> "", exp |-> [need |-> need, addr |-> addr, script |-> script, tname |-> tname,
@@ -117,6 +121,11 @@ HashPlan(facts, st, wv, h) ==
 
 Build(r) ==
     CASE r.what = "addr" -> BuildAddr(r.facts, r.x, MkDest(r.dk, r.wv, r.p))
+      [] r.what = "cands" ->        \* checksum facts for the addresses of several candidate destinations under network r.y
+           LET RECURSIVE N(_)
+               N(i) == IF i > Len(r.cands) THEN <<>>
+                       ELSE NeedAddr(r.facts, r.y, MkDest(r.cands[i].dk, r.cands[i].wv, r.cands[i].p)) \o N(i + 1)
+           IN BOut(N(1), <<>>, <<>>, "", NoDest)
       [] r.what = "hash" ->
            LET pl == HashPlan(r.facts, r.st, r.wv, r.p) IN
            IF pl.need # <<>> THEN BOut(pl.need, <<>>, <<>>, "", NoDest)
@@ -130,6 +139,7 @@ Build(r) ==
                d1 == Classify(s)
                d2 == ShapeOf(s)
            IN BOut(NeedAddr(r.facts, r.y, d1) \o (IF d2 # d1 THEN NeedAddr(r.facts, r.y, d2) ELSE <<>>)
+                   \o (IF r.y # DefaultNet THEN NeedAddr(r.facts, DefaultNet, d1) ELSE <<>>)
                    \o (IF d1 = NoDest THEN NeedKey(r.facts, r.y, s) ELSE <<>>), <<>>, s, TypeName(d1), d1)
       [] OTHER -> [v |-> "unknown-build", dev |-> "", exp |-> <<>>]
 
@@ -256,6 +266,9 @@ JRev(r) ==
                   /\ \/ S.k \in {"pkh", "sh"} /\ o.type = (IF S.k = "pkh" THEN "p2pkh" ELSE "p2sh") /\ o.addr = AddrT(r.facts, r.y, S)
                      \/ S.k = "wit" /\ S.v = 0 /\ o.type \in {"p2wpkh", "p2wsh"}
                      \/ S.k = "wit" /\ S.v >= 1 /\ o.type = "p2tr"
+        \* named deviation: the transactions of a parsed block are read on the default network, not on the network named
+        devBlk == /\ r.route \in BlockRoutes /\ r.y # DefaultNet /\ D # NoDest /\ o.ok
+                  /\ NeedAddr(r.facts, DefaultNet, D) = <<>> /\ o.addr = AddrT(r.facts, DefaultNet, D)
         \* named deviation: a script that is no template but pushes something key-shaped gets the address of that "key"
         kk == FirstKey(r.s)
         devKey == /\ D = NoDest /\ kk # <<>> /\ o.ok /\ o.type \notin StandardNames
@@ -273,14 +286,16 @@ JRev(r) ==
     THEN (IF ~o.ok THEN Bad("standard-script-refused", "", ea)
           ELSE IF o.type # TypeName(D) THEN Bad("script-type", "", ea)
           ELSE IF o.hash # D.p THEN Bad("public-hash", "", D.p)
-          ELSE IF o.addr # ea THEN Bad("address", IF HexText(D.p) THEN "hex-text-payload-unhexlified" ELSE "", ea)
+          ELSE IF o.addr # ea THEN Bad("address", IF HexText(D.p) THEN "hex-text-payload-unhexlified"
+                                              ELSE IF devBlk THEN "block-parse-ignores-network" ELSE "", ea)
           ELSE IF o.lock # r.s THEN Bad("lock-script", "", r.s)
           ELSE ViewsAndRoundTrip(o, D))
     ELSE IF ~o.ok THEN Ok                       \* refusing a script that is not standard is allowed
     ELSE IF D # NoDest                          \* valid witness program of a future version / size
     THEN (IF o.type \in LegacyFour THEN Bad("script-type", "", ea)
           ELSE IF o.addr # <<>> /\ o.addr # ea
-          THEN Bad("address", IF devEmb THEN "bech32-encoder-misreads-odd-size-program" ELSE "", ea)
+          THEN Bad("address", IF devEmb THEN "bech32-encoder-misreads-odd-size-program"
+                              ELSE IF devBlk THEN "block-parse-ignores-network" ELSE "", ea)
           ELSE IF o.addr # <<>> /\ o.hash # D.p THEN Bad("public-hash", "", D.p)
           ELSE IF o.type = "p2tr" /\ o.witver # D.v THEN Bad("witness-version", "", <<D.v>>)
           ELSE IF o.lock # r.s THEN Bad("lock-script", "", r.s)
@@ -306,7 +321,22 @@ JUniform(r) ==
     IN IF yes # {} /\ no \ yes # {} THEN Bad("witness-versions-answered-unevenly", "", <<SetToSeq(yes), SetToSeq(no \ yes)>>)
        ELSE Ok
 
+\* ---- an output asked for without a script type (Transaction.add_output(value, public_hash = h) / public_key = k): the
+\* library may choose among the standard destinations that commit to the payload (r.cands); whatever it chooses, the
+\* output is then judged like a raw script: type, hash and address (on the network named) of the script it carries
+JAny(r) ==
+    LET o == r.obs
+        D == Classify(o.lock)
+        C == {MkDest(r.cands[i].dk, r.cands[i].wv, r.cands[i].p) : i \in 1..Len(r.cands)}
+    IN IF ~o.ok THEN Bad("standard-destination-refused", "", <<>>)
+       ELSE IF D \notin C THEN Bad("lock-script", "", <<>>)
+       ELSE LET v == JRev([k |-> "rev", route |-> r.route, s |-> o.lock, y |-> r.y, facts |-> r.facts, obs |-> o, strict |-> TRUE]) IN
+            \* (deviation payload-length-not-checked: the default p2wpkh template filled with a 32-byte hash)
+            IF v.v = "script-type" /\ o.type = "p2wpkh" /\ D = Wit(0, D.p) /\ Len(D.p) = 32
+            THEN [v EXCEPT !.dev = "payload-length-not-checked"] ELSE v
+
 Judge(r) == CASE r.k = "build" -> Build(r)
+              [] r.k = "any" -> JAny(r)
               [] r.k = "uniform" -> JUniform(r)
               [] r.k = "fwd" -> JFwd(r)
               [] r.k = "rev" -> JRev(r)
